@@ -318,6 +318,8 @@ where
 
         let start_states = RE_WS
             .split(declaration_parameters)
+            // Names may be separated by more than one blank.
+            .filter(|name| !name.is_empty())
             .map(|name| {
                 let off = name.as_ptr() as usize - self.src.as_ptr() as usize;
                 i = off + name.len();
